@@ -181,6 +181,22 @@ CHECKS = {
                    "correspondence; partial: asyncio.wait_for/Queue are not modelled - a timeout is "
                    "taken to be due exactly `interval` after the wait began, validated on every case.",
         design_ref="DESIGN.md section 6/C18"),
+    'C09': dict(
+        text="Theorems (Props/C09.v) for every ordering of error sources: the recorded error is "
+             "write-once and is the FIRST delivery; exactly handler / output-calculation / "
+             "synchronous-init / monitored-task errors, abort() and the control events reach the "
+             "simulator, parameter errors, unknown events, async-init, restore and clean-up errors "
+             "never do; a cancellation is a normal stop; run() raises the simulator's error, else the "
+             "error of the failing supporting coroutine with the lowest index. Tie: tagged exceptions "
+             "fired at chosen virtual instants (also the same instant, also racing with shutdown()), "
+             "the order in which they reached Circuit.abort()/the simulator, Circuit.error, outcome of "
+             "run()/shutdown(), is_ready() afterwards.",
+        technique="Coq proof (fold over delivery lists) + differential correspondence and monitor "
+                  "evaluated by vm_compute",
+        level_note="Trusted: Coq kernel/vm_compute, hand-written model tied by this run's "
+                   "correspondence; partial: the delivery order of errors raised in one instant by "
+                   "different tasks is asyncio's - the observed order is the model's input.",
+        design_ref="DESIGN.md section 6/C09"),
 }
 
 NOT_YET = "check not built yet in this round (planned: Coq model + theorems + correspondence, see DESIGN.md section 6)"
